@@ -84,7 +84,7 @@ def svc(requests, chunk=20000, timeout=300):
     out = [None] * len(requests)
 
     def do(lo, hi):
-        lines = "\n".join(json.dumps({"id": i, "derive": requests[i]["derive"], "item": requests[i]["item"]})
+        lines = "\n".join(json.dumps({"id": i, "derive": requests[i]["derive"], "item": requests[i]["item"], "canon": bool(requests[i].get("canon"))})
                           for i in range(lo, hi)) + "\n"
         try:
             p = subprocess.run([exe, "svc"], input=lines, stdout=subprocess.PIPE, stderr=subprocess.PIPE,
